@@ -40,9 +40,81 @@ def helper_family(ctx: Ctx) -> set[str]:
 
 def run(ctx: Ctx) -> None:
     r1(ctx, ctx.repo.func("_frame_helper.plain_text", "APIPlaintextFrameHelper.data_received"), "C01.R1", deliver_direct=True)
+    reader_layout(ctx, ctx.repo.func("_frame_helper.plain_text", "APIPlaintextFrameHelper.data_received"))
     r2(ctx)
     r3(ctx)
     r4(ctx)
+
+
+def reader_layout(ctx: Ctx, fn: Func) -> None:
+    """What is handed over is what was read: the (type, payload) pair given to the connection consists of the value of
+    a varint read and the result of a `_read(<length>)` whose length is itself the value of a varint read (or the
+    empty payload), and the reads happen in the order of the wire layout - marker, length, type, payload."""
+    from ..flow import occurred_before
+
+    res = resolver(ctx)
+    g = cfg_of(ctx, fn)
+    deliver = [c for c in own_nodes(fn.node) if isinstance(c, ast.Call) and any(f.name == "process_packet" for f in res.callees(fn, c).funcs)]
+    ctx.ob("C01.R1", fn, "one delivery site taking (type, payload)", len(deliver) == 1 and len(deliver[0].args) == 2 and not deliver[0].keywords, f"{[norm(c)[:60] for c in deliver]}")
+    if len(deliver) != 1 or len(deliver[0].args) != 2:
+        return
+
+    def defs_of(name: str) -> list[ast.expr]:
+        out = []
+        for n in own_nodes(fn.node):
+            if isinstance(n, (ast.Assign, ast.AnnAssign)) and n.value is not None:
+                tg = n.targets if isinstance(n, ast.Assign) else [n.target]
+                if any(isinstance(t, ast.Name) and t.id == name for t in tg):
+                    out.append(n.value)
+            if isinstance(n, ast.NamedExpr) and n.target.id == name:
+                out.append(n.value)
+            if isinstance(n, ast.AugAssign) and isinstance(n.target, ast.Name) and n.target.id == name:
+                out.append(n)  # type: ignore[arg-type]
+        return out
+
+    def is_read(e: ast.AST, which: str) -> bool:
+        return isinstance(e, ast.Call) and which in {f.name for f in res.callees(fn, e).funcs}
+
+    t_arg, p_arg = deliver[0].args
+    t_defs = defs_of(t_arg.id) if isinstance(t_arg, ast.Name) else []
+    ctx.ob("C01.R1", fn, "the type handed over is the value of a varint read, nothing else", isinstance(t_arg, ast.Name) and bool(t_defs) and all(is_read(d, "_read_varuint") for d in t_defs), f"{norm(t_arg)} = {[norm(d)[:40] for d in t_defs]}")
+    p_defs = defs_of(p_arg.id) if isinstance(p_arg, ast.Name) else []
+    lens = []
+    okp = isinstance(p_arg, ast.Name) and bool(p_defs)
+    for d in p_defs:
+        if is_read(d, "_read") and not is_read(d, "_read_varuint") and len(d.args) == 1 and isinstance(d.args[0], ast.Name):  # type: ignore[attr-defined]
+            lens.append(d.args[0].id)  # type: ignore[attr-defined]
+        elif isinstance(d, ast.expr) and ctx.sym.eval(d, fn.module.name) == b"":
+            pass
+        else:
+            okp = False
+    ctx.ob("C01.R1", fn, "the payload handed over is `_read(<length>)` or the empty payload, nothing else", okp and len(set(lens)) == 1, f"{norm(p_arg)} = {[norm(d)[:40] for d in p_defs if isinstance(d, ast.expr)]}")
+    if len(set(lens)) != 1 or not isinstance(t_arg, ast.Name):
+        return
+    l_name = lens[0]
+    l_defs = defs_of(l_name)
+    ctx.ob("C01.R1", fn, "the payload length is the value of a varint read, nothing else (and not the type)", bool(l_defs) and all(is_read(d, "_read_varuint") for d in l_defs) and l_name != t_arg.id, f"{l_name} = {[norm(d)[:40] for d in l_defs]}")
+
+    def binds(n: Node) -> list[str]:
+        out = []
+        if n.ast is None:
+            return out
+        for x in walk_own(n.ast):
+            if isinstance(x, ast.NamedExpr) and is_read(x.value, "_read_varuint"):
+                out.append(f"bind:{x.target.id}")
+            if isinstance(x, (ast.Assign, ast.AnnAssign)) and x.value is not None and is_read(x.value, "_read_varuint"):
+                for t in x.targets if isinstance(x, ast.Assign) else [x.target]:
+                    if isinstance(t, ast.Name):
+                        out.append(f"bind:{t.id}")
+        return out
+
+    ob_ = occurred_before(g, binds)
+    bind_nodes = {tok: [n for n in g.reachable() if tok in binds(n)] for tok in (f"bind:{l_name}", f"bind:{t_arg.id}")}
+    others = sorted({b for n in g.reachable() for b in binds(n)} - {f"bind:{l_name}", f"bind:{t_arg.id}"})
+    order_ok = len(others) == 1 and all(others[0] in ob_.get(n, frozenset()) for n in bind_nodes[f"bind:{l_name}"]) and all(f"bind:{l_name}" in ob_.get(n, frozenset()) for n in bind_nodes[f"bind:{t_arg.id}"])
+    pay_nodes = [n for n in g.reachable() if n.ast is not None and any(isinstance(x, ast.Call) and is_read(x, "_read") and not is_read(x, "_read_varuint") for x in walk_own(n.ast))]
+    order_ok = order_ok and bool(pay_nodes) and all(f"bind:{t_arg.id}" in ob_.get(n, frozenset()) for n in pay_nodes)
+    ctx.ob("C01.R1", fn, "reads follow the wire layout: marker, length, type, payload", order_ok, f"varint reads bound to {others} + {l_name}, {t_arg.id}")
 
 
 # ----------------------------------------------------------------------- R1
@@ -233,7 +305,11 @@ def r1(ctx: Ctx, fn: Func, rule: str, deliver_direct: bool, deliver_funcs: set[s
                 uses.append(n)
         ctx.ob(rule, fn, f"missing bytes ({var} == {sentinel}) leave the function before anything is consumed, delivered or re-read", not uses, f"with {var} == {sentinel!r} the loop still reaches {[u.text(40) for u in uses[:2]]}: a partial frame would be lost or mis-parsed", node=rn.ast)
         # converse: only the sentinel may make the loop give up - every real value goes on to a consume (or an error report)
-        samples = [0, 1, 127, 128, 16384, 2**32] if sentinel == -1 else [b"", b"\x00", b"x" * 3]
+        samples = [0, 1, 127, 128, 16384, 65535, 65536, 2**32, 2**64] if sentinel == -1 else [b"", b"\x00", b"x" * 3]
+        # the first read of an iteration is the framing marker: a wrong value is reported as an error (C04); for every
+        # later read (length, type, payload) a real value is never a reason to give up - only the consume counts
+        first_read = rn is min((r[0] for r in reads), key=lambda q: (q.lineno, q.id))
+        need = {"consume", "err"} if first_read else {"consume"}
         stuck = []
         for val in samples:
             def classify_v(n: Node, var=var, val=val):
@@ -257,7 +333,7 @@ def r1(ctx: Ctx, fn: Func, rule: str, deliver_direct: bool, deliver_funcs: set[s
                 return None
 
             reach_v = walk(g, {"T": True}, classify_v, start=rn)
-            goes_on = any(({"consume", "err"} & set(loop_events(ctx, fn, n, deliver_funcs))) for n in reach_v if n is not rn and n.ast is not None and n.kind in ("stmt", "cond"))
+            goes_on = any((need & set(loop_events(ctx, fn, n, deliver_funcs))) for n in reach_v if n is not rn and n.ast is not None and n.kind in ("stmt", "cond"))
             if not goes_on:
                 stuck.append(val if not isinstance(val, bytes) else f"{len(val)} byte(s)")
         ctx.ob(rule, fn, f"only the sentinel stops the parse: every real value of {var} goes on to the consume", not stuck, f"with {var} in {stuck} the loop gives up without consuming: a valid frame (e.g. type 0 / empty payload) stalls the stream forever", node=rn.ast)
